@@ -26,6 +26,18 @@ pub struct PropSpec {
     pub batch: usize,
 }
 
+/// where replay files and evidence are written: /verif, unless DSIM_OUT names a scratch directory
+/// (used when the checks are run against a deliberately broken tree, so that nothing committed is overwritten)
+pub fn out_root() -> PathBuf {
+    if let Ok(p) = std::env::var("DSIM_OUT") {
+        let p: PathBuf = p.into();
+        let _ = std::fs::create_dir_all(p.join("replays"));
+        let _ = std::fs::create_dir_all(p.join("evidence"));
+        return p;
+    }
+    verif_root()
+}
+
 pub fn verif_root() -> PathBuf {
     if let Ok(p) = std::env::var("DSIM_ROOT") {
         return p.into();
@@ -514,7 +526,7 @@ pub fn check(spec: &PropSpec, thorough: bool, base_seed: u64, max_runs: Option<u
         let mut min = min;
         min.expect_fingerprint = Some(fp.clone());
         min.note = Some(format!("{} :: {}", fp, v.detail));
-        let mut p = verif_root();
+        let mut p = out_root();
         p.push("replays");
         let _ = std::fs::create_dir_all(&p);
         p.push(format!("{}-{}.json", prop, slug(&fp[prop.len() + 1..])));
@@ -580,7 +592,7 @@ pub fn check(spec: &PropSpec, thorough: bool, base_seed: u64, max_runs: Option<u
         "wall_s": wall,
         "violations": by_fp.len(),
     });
-    let mut p = verif_root();
+    let mut p = out_root();
     p.push("evidence");
     let _ = std::fs::create_dir_all(&p);
     p.push(format!("{prop}.json"));
